@@ -177,26 +177,10 @@ Qed.
    >>> AFTER THE FIX IS COMMITTED TO /repo: set compare_first_last_line_fixed := true in
    >>> Bitmap/BitmapModel.v, delete the two theorems between the BEGIN/END AS-FOUND markers and
    >>> uncomment the theorem between the BEGIN/END FIXED markers. *)
-(* BEGIN AS-FOUND *)
-Theorem compare_first_refuted :
-  exists r1 r2 r1' r2', wf r1 /\ wf r2 /\ wf r1' /\ wf r2' /\ abs r1 = abs r1' /\ abs r2 = abs r2' /\
-    bm_compare_first r1 r2 <> bm_compare_first r1' r2' /\
-    Z.sgn (bm_compare_first r1 r2) <> sp_compare_first (abs r1) (abs r2).
-Proof. exact compare_first_asfound_refuted. Qed.
-Print Assumptions compare_first_refuted.
-Theorem compare_first_partial : forall r1 r2, wf r1 -> wf r2 -> ~ cf_excluded (abs r1) (abs r2) ->
-  Z.sgn (bm_compare_first r1 r2) = sp_compare_first (abs r1) (abs r2).
-Proof. exact compare_first_asfound_partial. Qed.
-Print Assumptions compare_first_partial.
-Example compare_first_partial_nonvacuous : ~ cf_excluded (abs ex_inf3) (abs ex_fin2).
-Proof. intros [[E _]|[E _]]; vm_compute in E; discriminate. Qed.
-(* END AS-FOUND *)
-(* BEGIN FIXED
 Theorem compare_first_spec : forall r1 r2, wf r1 -> wf r2 ->
   Z.sgn (bm_compare_first r1 r2) = sp_compare_first (abs r1) (abs r2).
 Proof. exact compare_first_fixed_spec. Qed.
 Print Assumptions compare_first_spec.
-END FIXED *)
 (* the fixed code, whatever the flag says *)
 Theorem compare_first_with_fix_spec : forall r1 r2, wf r1 -> wf r2 ->
   Z.sgn (bm_compare_first_v true r1 r2) = sp_compare_first (abs r1) (abs r2).
